@@ -12,7 +12,7 @@
    streaming, no signature in deflated data of the generated bodies) is established on archives written by
    archive/zip with the entry list read back as oracle (c19 channel, predicates c19_forward / c19_converse). *)
 From Verif Require Import Base.Bytes Model.Types Model.GoLite Model.Zip Model.Detect Gen.TreeData Gen.SigData
-  Spec.SpecZip Proofs.ZipP Proofs.ZipWalkP.
+  Spec.SpecZip Proofs.ZipP Proofs.ZipWalkP Model.Detectors Gen.FuncTerms Proofs.TranslateP.
 
 Theorem C19_first_entry_signature_found :
   forall skip hdr name rest sig mso,
@@ -85,3 +85,14 @@ Proof. vm_compute. repeat split; try reflexivity; try lia. Qed.
 Example C19_jar_example :
   zc ([80;75;3;4]%N ++ repeat 0%N 26 ++ b "META-INF/MANIFEST.MF" ++ b "Manifest-Version: 1.0") manifest_name false = true.
 Proof. vm_compute. reflexivity. Qed.
+
+(* regenerated obligation: the signature test of application/zip itself (func Zip) in the CURRENT source is the term
+   the model evaluates (equal up to the normalisation proved to preserve result and Panic, TranslateP.normp_sound),
+   and that term is the zip_bexp the walk theorems use *)
+Theorem C19_zip_signature_is_the_source :
+  match assoc "Zip" gen_func_terms, assoc "Zip" func_terms with
+  | Some g, Some h => bexp_eqb (normp h) (normp g) && bexp_eqb (normp h) (norm zip_bexp)
+  | _, _ => false
+  end = true.
+Proof. vm_compute. reflexivity. Qed.
+Print Assumptions C19_zip_signature_is_the_source.
